@@ -351,7 +351,8 @@ impl<'c> Interp<'c> {
         self.used = true;
         let e = self.entry();
         let pre = self.pre(api.x_as_api(), false);
-        let out = guard(|| api.x_alloc_try_with_mut(ok, try_, false));
+        let variant = r.b(12) & 1 == 1;
+        let out = guard(|| api.x_alloc_try_with_mut(ok, try_, variant));
         self.judge_fault(&pre, &out, &what);
         let mut check = false;
         if let Outcome::Ok(res) = out {
